@@ -61,9 +61,27 @@ def _rgb(rng):
     return (rng.randrange(256), rng.randrange(256), rng.randrange(256))
 
 
-def _stops(rng):
+def _stops(rng, spread="pad"):
     n = rng.choice([2, 2, 3])
-    offs = sorted({0.0, 1.0} | {round(rng.uniform(0.2, 0.8), 2) for _ in range(n - 2)})
+    # usually from 0 to 1; sometimes the first stop lies after 0 and/or the last before 1
+    # (common in hand-drawn art: the end colours then pad inside the gradient vector)
+    lo, hi = (0.0, 1.0)
+    k = rng.random()
+    if spread != "pad":
+        # known finding F20 (repeat / reflect with stops that do not span [0, 1]): that class
+        # is exercised by its recorded witness, not drawn at random
+        k = 1.0
+    if k < 0.12:
+        lo = rng.choice([0.1, 0.25])
+    elif k < 0.24:
+        hi = rng.choice([0.6, 0.85])
+    elif k < 0.3:
+        lo, hi = 0.2, 0.75
+    offs = sorted({lo, hi} | {round(rng.uniform(lo + 0.15 * (hi - lo), hi - 0.15 * (hi - lo)), 2) for _ in range(n - 2)})
+    if spread == "pad" and 0.3 <= k < 0.36:
+        # offsets SVG has to repair: outside [0, 1] (clamped) or smaller than the one before
+        # (raised to it)
+        offs = rng.choice([[0.0, 1.4], [-0.5, 1.0], [0.0, 0.6, 0.3, 1.0], [0.2, 0.1, 0.9]])
     return [(o, _rgb(rng), rng.choice([1.0, 1.0, 128 / 255])) for o in offs]
 
 
@@ -114,13 +132,13 @@ def _fill(rng, pts, allow_gradient=True):
             p1, p2 = (bx, by), (bx + bw, by + rng.choice([0, bh]))
         else:
             p1, p2 = (0, 0), (1, rng.choice([0, 1]))
-        return Linear(p1, p2, _stops(rng), units, _gt(rng), spread)
+        return Linear(p1, p2, _stops(rng, spread), units, _gt(rng), spread)
     if units == "userSpaceOnUse":
         c, rad = (bx + bw / 2, by + bh / 2), max(bw, bh) / 2
     else:
         c, rad = (0.5, 0.5), 0.5
     f = c if rng.random() < 0.7 else (c[0] + rad * 0.25, c[1])
-    return Radial(c, rad, f, _stops(rng), units, _gt(rng), spread)
+    return Radial(c, rad, f, _stops(rng, spread), units, _gt(rng), spread)
 
 
 _VIEWBOXES = [(0, 0, 100, 100), (0, 0, 128, 128), (0, 0, 200, 100), (0, 0, 60, 120), (10, 20, 80, 80)]
@@ -321,6 +339,26 @@ def spread_t(t, spread):
     return t if t <= 1 else 2 - t
 
 
+def svg_stops(stops):
+    """SVG's reading of a stop list: offsets clamped to [0, 1], each at least its predecessor"""
+    out, prev = [], 0.0
+    for o, c, a in stops:
+        o = max(prev, min(1.0, max(0.0, o)))
+        out.append((o, c, a))
+        prev = o
+    return out
+
+
+def colr_line_color(stops, ext, t):
+    """COLR colour line: pad clamps to the end stops; repeat / reflect tile the DEFINED
+    interval [first stop, last stop] (not [0, 1] as SVG's spreadMethod does)"""
+    t0, tn = stops[0][0], stops[-1][0]
+    if ext == "pad" or tn <= t0:
+        return stops_color(stops, t)
+    u = spread_t((t - t0) / (tn - t0), ext)
+    return stops_color(stops, t0 + u * (tn - t0))
+
+
 def stops_color(stops, t):
     """stops: [(offset, (r,g,b), alpha)] sorted; linear interpolation of non-premultiplied RGBA"""
     if t <= stops[0][0]:
@@ -416,7 +454,7 @@ def spec_fill_color(shape, p):
         # far outside the gradient's own range integer rounding of the COLR gradient
         # geometry is amplified (|dt| ~ t / r): not a stable sample
         return None
-    c = stops_color(f.stops, spread_t(t, f.spread))
+    c = stops_color(svg_stops(f.stops), spread_t(t, f.spread))
     return (c[0], c[1], c[2], c[3] * shape.opacity)
 
 
@@ -583,14 +621,13 @@ class ColrEval:
             t = linear_t3((p.x0, p.y0), (p.x1, p.y1), (p.x2, p.y2), q)
             if t is None:
                 return None
-            c = stops_color(stops, spread_t(t, ext))
-            return c
+            return colr_line_color(stops, ext, t)
         if f == F.PaintRadialGradient:
             stops, ext = self.colorline(p.ColorLine)
             t = radial_t((p.x0, p.y0), p.r0, (p.x1, p.y1), p.r1, q)
             if t is None:
                 return CLEAR
-            return stops_color(stops, spread_t(t, ext))
+            return colr_line_color(stops, ext, t)
         if f == F.PaintGlyph:
             self.leaves.append((p.Glyph, acc))
             if not inside_glyph(self.polys(p.Glyph), q):
@@ -778,13 +815,13 @@ class SvgEval:
                 return CLEAR
         if t is None:
             return None
-        return stops_color(stops, spread_t(t, spread))
+        return stops_color(svg_stops(stops), spread_t(t, spread))
 
     def color(self, el, q, inherited=None):
         """returns RGBA, None (undecidable) or an error string"""
         inherited = dict(inherited or {})
         tag = _local(el)
-        if tag in ("defs", "linearGradient", "radialGradient", "stop"):
+        if tag in ("defs", "linearGradient", "radialGradient", "stop", "clipPath"):
             return CLEAR
         a = el.attrib
         if "transform" in a:
@@ -792,6 +829,26 @@ class SvgEval:
             if mi is None:
                 return CLEAR
             q = ap(mi, q)
+        if "clip-path" in a:
+            # userSpaceOnUse: the clip path lives in this element's user space (its own
+            # transform included); union of the clipPath's children
+            cp = self.ids[a["clip-path"][a["clip-path"].index("#") + 1 : a["clip-path"].index(")")]]
+            if cp.attrib.get("clipPathUnits", "userSpaceOnUse") != "userSpaceOnUse" or "transform" in cp.attrib:
+                return "UNSUPPORTED-CLIP"
+            hit = False
+            for ch in cp:
+                if _local(ch) != "path":
+                    return "UNSUPPORTED-CLIP"
+                qc = q
+                if "transform" in ch.attrib:
+                    mic = inv(parse_matrix(ch.attrib["transform"]))
+                    if mic is None:
+                        continue
+                    qc = ap(mic, q)
+                if inside_glyph(path_polys(ch.attrib["d"]), qc):
+                    hit = True
+            if not hit:
+                return CLEAR
         for k in ("fill",):
             if k in a:
                 inherited[k] = a[k]
@@ -927,10 +984,12 @@ def gradient_t_at(glyph, p):
     return best
 
 
-def within_envelope(glyph, p, got, delta, tol_rgb=8, tol_a=0.04):
+def within_envelope(glyph, p, got, delta, tol_rgb=8, tol_a=0.04, color_at=None):
     """is `got` between the colours the specification gives at points displaced by up to
     `delta` (viewBox units)?  Absorbs integer rounding of gradient geometry near steep or
-    discontinuous (repeat) colour lines."""
+    discontinuous (repeat) colour lines.  `color_at` replaces the specification (the source
+    picture) by another reference picture, e.g. a COLR paint graph for C13."""
+    spec_color = (lambda g_, q_: color_at(q_)) if color_at else globals()["spec_color"]
     cols = []
     # (the tiny displacements pick up both one-sided limits when p sits exactly on a
     # discontinuity of a repeating colour line)
@@ -957,7 +1016,7 @@ def has_hard_stop(glyph):
     for s in all_shapes(glyph):
         f = s.fill
         if not isinstance(f, Solid):
-            offs = [o for o, _, _ in f.stops]
+            offs = [o for o, _, _ in svg_stops(f.stops)]
             if len(set(offs)) != len(offs):
                 return True
     return False
